@@ -69,6 +69,66 @@ def range_rejections(call_fn):
     return val, rej, others
 
 
+def linear_form(e, val):
+    """Coefficients {atom: int} of an integer-linear expression over value / self.start / self.modulo (None if not linear).
+    `self.start or 0` is the atom start (it only differs from start when start is None, where 0 is what the property states);
+    abs(x) is kept as x: |x| is divisible by m exactly when x is."""
+    if isinstance(e, ast.Constant) and isinstance(e.value, int) and not isinstance(e.value, bool):
+        return {"1": e.value}
+    if isinstance(e, ast.Name) and e.id == val:
+        return {"value": 1}
+    if is_self_attr(e, "start"):
+        return {"start": 1}
+    if is_self_attr(e, "modulo"):
+        return {"modulo": 1}
+    if isinstance(e, ast.BoolOp) and isinstance(e.op, ast.Or) and len(e.values) == 2 and is_self_attr(e.values[0], "start") \
+            and isinstance(e.values[1], ast.Constant) and e.values[1].value == 0:
+        return {"start": 1}
+    if isinstance(e, ast.Call) and is_name(e.func, "abs") and len(e.args) == 1:
+        return linear_form(e.args[0], val)
+    if isinstance(e, ast.UnaryOp) and isinstance(e.op, ast.USub):
+        a = linear_form(e.operand, val)
+        return None if a is None else {k: -v for k, v in a.items()}
+    if isinstance(e, ast.BinOp) and isinstance(e.op, (ast.Add, ast.Sub)):
+        a, b = linear_form(e.left, val), linear_form(e.right, val)
+        if a is None or b is None:
+            return None
+        sign = 1 if isinstance(e.op, ast.Add) else -1
+        out = dict(a)
+        for k, v in b.items():
+            out[k] = out.get(k, 0) + sign * v
+        return out
+    if isinstance(e, ast.BinOp) and isinstance(e.op, ast.Mult):
+        a, b = linear_form(e.left, val), linear_form(e.right, val)
+        if a is not None and b is not None:
+            if set(a) <= {"1"}:
+                return {k: a.get("1", 0) * v for k, v in b.items()}
+            if set(b) <= {"1"}:
+                return {k: b.get("1", 0) * v for k, v in a.items()}
+    return None
+
+
+def judge_modulo(ret_expr, val):
+    """-> (verdict, text).  verdict True/False, or None when the shape is outside the normaliser."""
+    e = ret_expr
+    if not (isinstance(e, ast.Compare) and len(e.ops) == 1 and isinstance(e.ops[0], ast.Eq)):
+        return None, f"`{norm(e)}` is not `<expr> % modulo == 0`"
+    lhs, rhs = e.left, e.comparators[0]
+    if isinstance(lhs, ast.Constant):
+        lhs, rhs = rhs, lhs
+    if not (isinstance(rhs, ast.Constant) and rhs.value == 0 and isinstance(lhs, ast.BinOp) and isinstance(lhs.op, ast.Mod)):
+        return (False if isinstance(rhs, ast.Constant) and isinstance(lhs, ast.BinOp) and isinstance(lhs.op, ast.Mod) else None), \
+            f"`{norm(e)}` does not test a remainder against 0"
+    if not is_self_attr(lhs.right, "modulo"):
+        return False, f"the remainder is taken modulo `{norm(lhs.right)}`, not the modulus"
+    lf = linear_form(lhs.left, val)
+    if lf is None:
+        return None, f"`{norm(lhs.left)}` is not an integer-linear expression of value, start and modulo"
+    lf = {k: v for k, v in lf.items() if k != "modulo" and v != 0}      # multiples of the modulus do not change the remainder
+    ok = lf in ({"value": 1, "start": -1}, {"value": -1, "start": 1})
+    return ok, f"divisibility of {' '.join(f'{v:+d}*{k}' for k, v in sorted(lf.items()))} (up to multiples of the modulus) by the modulus"
+
+
 def check_captures_shape(fn):
     """Structural reading of Selector.check_captures -> list of problems."""
     problems = []
@@ -217,12 +277,12 @@ def run(repo, chk):
     chk.explanation = (
         "Decides the structural clauses of C12: each stock comparison predicate is a single comparison whose operator, "
         "after normalising operand order and negation, is the one its name states (true for all integers, not a sample); "
-        "Range rejects exactly value<start / value>=end under not-None guards; every/between forward their arguments to the "
+        "Range rejects exactly value<start / value>=end under not-None guards and, with a modulus, accepts iff value-start is divisible by it "
+        "(linear normal form modulo the modulus, valid for all integers); every/between forward their arguments to the "
         "same-named Range fields; intercept, trigger and close are wrapped by one capture check installed under one condition; "
-        "check_captures rejects on the first mismatching captured value and accepts otherwise. Not decided: the modulo "
-        "arithmetic of every(), throttle (stateful), end-to-end event filtering.")
-    chk.not_decided += ["arithmetic identity of the modulo test in Range.__call__ (only purity of the expression is checked)",
-                        "throttle", "end-to-end filtering of events at run time"]
+        "check_captures rejects on the first mismatching captured value and accepts otherwise. Not decided: "
+        "throttle (stateful), end-to-end event filtering.")
+    chk.not_decided += ["throttle", "end-to-end filtering of events at run time"]
     chk.assumptions += ["Python comparison semantics on integers", "handlers are invoked only through the wrapped slots (R12.2)"]
     chk.rule("R12.1", "stock predicates touch their argument through exactly the comparison their name states; Range rejection set "
                       "= {value < start | start is not None, value >= end | end is not None}; every/between/Range.__init__ route "
@@ -233,6 +293,10 @@ def run(repo, chk):
                       "otherwise; hasval / all_values aggregate over captures and children", 4)
 
     # fixtures
+    fx = parse_fixture("def f(self, value):\n    return value % self.modulo == 0\n").body[0].body[0].value
+    chk.fixture("R12.1", "modulo test ignoring start", True, judge_modulo(fx, "value")[0] is not True)
+    fx = parse_fixture("def f(self, value):\n    return abs(value - (self.start or 0)) % self.modulo == 0\n").body[0].body[0].value
+    chk.fixture("R12.1", "abs(value - start) % m == 0 (equivalent)", False, judge_modulo(fx, "value")[0] is not True)
     good = parse_fixture("def lt(end):\n    return lambda x: end > x\n").body[0]
     bad = parse_fixture("def lt(end):\n    return lambda x: x <= end\n").body[0]
     chk.fixture("R12.1", "lt flipped operands (equivalent)", False, not judge_comparison(good)[0])
@@ -275,7 +339,18 @@ def run(repo, chk):
     chk.ob("R12.1", "tools.Range.__call__:accept-otherwise", tail_ok and isinstance(rc.node.body[-1], ast.Return), rc.where,
            "values that are not rejected are accepted (final `return True`, no other statement kinds)")
     chk.ob("R12.1", "tools.Range.__call__:modulo-pure", pure, rc.where,
-           "the modulo test is a pure expression of value, start and modulo (its arithmetic is not judged)")
+           "the modulo test is a pure expression of value, start and modulo")
+    mod_ifs = [st for st in others if isinstance(st, ast.If) and "modulo" in norm(st.test)]
+    if len(mod_ifs) == 1 and len(mod_ifs[0].body) == 1 and isinstance(mod_ifs[0].body[0], ast.Return):
+        verdict, txt = judge_modulo(mod_ifs[0].body[0].value, val)
+        guard_ok = norm(mod_ifs[0].test) in ("self.modulo is not None",)
+        if verdict is None:
+            raise AnalysisError(f"tools.Range.__call__: modulo test outside the normaliser: {txt}")
+        chk.ob("R12.1", "tools.Range.__call__:modulo-is-divisibility-of-value-minus-start", verdict and guard_ok, rc.where,
+               f"with a modulus, a value in range is accepted iff value - start is divisible by it, for all integers: the test normalises to {txt} "
+               "((a + k*m) mod m = a mod m; |a| is divisible by m iff a is)")
+    else:
+        raise AnalysisError("tools.Range.__call__: modulo branch not recognised")
     # argument routing
     ri = repo.func("tools.Range.__init__")
     for f in ("start", "end", "modulo"):
